@@ -59,6 +59,22 @@ impl Watch {
             }
         }
 
+        // C07 / C16: a QoS 2 PUBLISH handed to the application is, from that moment, in the set
+        // the library exports as "handled" (a crash right now must not lose the suppression of
+        // its retransmission) - whatever state the connection is in
+        for e in evs {
+            if let Ev::Recv { pkt } = e {
+                if pkt.kind == wire::PUBLISH && pkt.qos == 2 {
+                    if let Some(id) = pkt.id {
+                        if !self.ep.handled().contains(&id) {
+                            self.flag(&["C07", "C16"], "notified-qos2-not-marked-handled", format!("{what}: {} was handed to the application but its id is not in the handled set {:?}", pkt.short(), self.ep.handled()));
+                            return;
+                        }
+                    }
+                }
+            }
+        }
+
         // C19: close after the last packet to flush
         let mut seen_close = false;
         let mut need_close = false;
